@@ -221,6 +221,16 @@ fn judge(src: &mut Src, st: &mut Stats) -> CheckResult {
         }
         t = g.ty(2);
     }
+    // tuples whose elements are all Data: nothing but the arity is left to check
+    if g.src.chance(1, 10) {
+        let n = 2 + g.src.below(2);
+        let tup = Ty::Tuple(vec![Ty::Data; n]);
+        t = match g.src.below(3) {
+            0 => tup,
+            1 => Ty::list(tup),
+            _ => Ty::opt(tup),
+        };
+    }
     // a generic data type whose parameter is only a list element, instantiated with a Pair
     if g.src.chance(1, 5) {
         let idx = g.m.adts.len();
